@@ -268,6 +268,31 @@ func propC18(w *World, r *Report) {
 		}
 	}
 	r.Check(nFill == 1, "W2", "reader: the buffer is filled by exactly one io.ReadFull of the whole buffer", w.InstrPos(frame), fmt.Sprint(nFill))
+	// W2 (stream framing): header and frames are consumed through one buffered reader, so that frame boundaries do not
+	// depend on how the stream is segmented
+	{
+		var hdrCall *ssa.Call
+		var fills []*ssa.Call
+		for _, b := range hc.Blocks {
+			for _, in := range b.Instrs {
+				c, ok := in.(*ssa.Call)
+				if !ok {
+					continue
+				}
+				switch {
+				case strings.HasSuffix(calleeName(c), "headers.ReadHeaderInfo"):
+					hdrCall = c
+				case calleeName(c) == "io.ReadFull" || calleeName(c) == "io.ReadAtLeast":
+					fills = append(fills, c)
+				}
+			}
+		}
+		if hdrCall == nil {
+			r.Unknown("W2", "header read of the connection handler", w.Pos(hc.Pos()), "no call to headers.ReadHeaderInfo found")
+		} else {
+			checkSingleBufferedReader(w, r, e, "W2", "reader: the header and every frame are read through the same bufio.Reader", hc, hdrCall, fills)
+		}
+	}
 	// W4: close on every exit after the goroutine started
 	closed := mustPassBeforeReturn(hc, goStmts[0], func(in ssa.Instruction) bool {
 		c, ok := in.(*ssa.Call)
